@@ -132,7 +132,7 @@ Hypothesis HF : bfacts_ok F = true.
 
 (* read_conn hands the dimensions to the lexicon whenever the buffer may have changed, and leaves the limits of a user
    dictionary alone: the two facts the history model takes *)
-Notation stepF := (step F true true).
+Notation stepF := (step F true true false false).
 
 Definition Inv (st : hstate) : Prop :=
   conn_wf (mkConn (hs_nl st) (hs_nr st) (hs_stores st))
@@ -195,14 +195,14 @@ Proof. intros u ns sl sr nl nr sto ll lr es seen A B C D E G. exact (conj A (con
 
 Lemma step_Inv : forall st o, Inv st -> Inv (fst (stepF st o)).
 Proof.
-  intros st o (Wc & We & Wl & Wr & Wu & Ws). destruct o as [ls|rs| |]; cbn [step].
+  intros st o (Wc & We & Wl & Wr & Wu & Ws). destruct o as [s ls|s rs| |]; cbn [step].
   - pose proof (conn_read_st_sound (mkConn (hs_nl st) (hs_nr st) (hs_stores st)) ls Wc) as C.
     destruct (conn_read_st F (mkConn (hs_nl st) (hs_nr st) (hs_stores st)) ls) as [[c seen] r].
     destruct C as (Wc' & _ & Hunseen). cbn [fst].
     assert (conn_wf (mkConn (c_nl c) (c_nr c) (c_stores c))) as Wc2 by (destruct c; exact Wc').
     destruct Wc' as (D1 & D2 & _).
-    assert (((match r with Ok _ => true | _ => true end) && negb (hs_user st && true)) = negb (hs_user st)) as Ef
-      by (destruct r, (hs_user st); reflexivity).
+    assert (((match r with Ok _ => true | _ => true && negb (returns_early false false s) end) && negb (hs_user st && true)) = negb (hs_user st)) as Ef
+      by (destruct r, s, (hs_user st); reflexivity).
     rewrite Ef. apply Inv_mk; try assumption.
     + destruct (hs_user st); cbn [negb]; lia.
     + destruct (hs_user st); cbn [negb]; lia.
@@ -261,7 +261,7 @@ Qed.
 
 Lemma step_no_panic : forall st o, Inv st -> snd (stepF st o) <> Panic.
 Proof.
-  intros st o I. destruct o as [ls|rs| |]; cbn [step].
+  intros st o I. destruct o as [s ls|s rs| |]; cbn [step].
   - pose proof (conn_read_st_sound (mkConn (hs_nl st) (hs_nr st) (hs_stores st)) ls (proj1 I)) as C.
     destruct (conn_read_st F _ ls) as [[c seen] r]. destruct C as (_ & NP & _). cbn [snd]. destruct r; [discriminate|discriminate|contradiction].
   - destruct (parse_records_st F rs) as [es ok]. cbn [snd]. destruct ok; discriminate.
@@ -271,7 +271,7 @@ Qed.
 
 Lemma step_nsys : forall st o, hs_nsys (fst (stepF st o)) = hs_nsys st.
 Proof.
-  intros st [ls|rs| |]; cbn [step]; try reflexivity.
+  intros st [s ls|s rs| |]; cbn [step]; try reflexivity.
   - destruct (conn_read_st F _ ls) as [[c seen] r]. reflexivity.
   - destruct (parse_records_st F rs) as [es ok]. reflexivity.
 Qed.
@@ -279,9 +279,9 @@ Qed.
 (* every call history: whichever calls were made before, in whatever order and with whatever outcomes, a compile that reports
    success after a matrix became known has produced a valid dictionary; and no call panics *)
 Theorem history_success_means_valid : forall ops st, Inv st -> 0 <= hs_nsys st ->
-  (forall i r, nth_error (run_history F true true st ops) i = Some r -> r <> Panic)
-  /\ forall i d, nth_error (run_history F true true st ops) i = Some (Ok (Some d)) ->
-       matrix_known (final_state F true true st (firstn i ops)) = true ->
+  (forall i r, nth_error (run_history F true true false false st ops) i = Some r -> r <> Panic)
+  /\ forall i d, nth_error (run_history F true true false false st ops) i = Some (Ok (Some d)) ->
+       matrix_known (final_state F true true false false st (firstn i ops)) = true ->
        dict_valid d = true /\ stores_in_range d = true.
 Proof.
   induction ops as [|o t IH]; intros st I Hn; cbn [run_history].
@@ -291,7 +291,7 @@ Proof.
     destruct (IH _ I' Hn') as [A B]. split.
     + intros [|i] r E; cbn [nth_error] in E; [inversion E; subst; exact NP|exact (A i r E)].
     + intros [|i] d E K; cbn [nth_error firstn final_state] in *.
-      * inversion E as [E1]. destruct o as [ls|rs| |]; cbn [step] in E1.
+      * inversion E as [E1]. destruct o as [s ls|s rs| |]; cbn [step] in E1.
         -- destruct (conn_read_st F _ ls) as [[c seen] r]. cbn [snd] in E1. destruct r; discriminate.
         -- destruct (parse_records_st F rs) as [es ok]. cbn [snd] in E1. destruct ok; discriminate.
         -- discriminate.
@@ -310,18 +310,29 @@ Proof.
   destruct (existsb _ (hs_entries st)); [discriminate|]. inversion H; subst. apply (index_err_false_sound F HF). exact Ei.
 Qed.
 
-Theorem history_index_ok : forall fl fu ops st i d,
-  nth_error (run_history F fl fu st ops) i = Some (Ok (Some d)) -> index_lists_ok d = true.
+Theorem history_index_ok : forall fl fu ef eb ops st i d,
+  nth_error (run_history F fl fu ef eb st ops) i = Some (Ok (Some d)) -> index_lists_ok d = true.
 Proof.
-  intros fl fu. induction ops as [|o t IH]; intros st i d E; cbn [run_history] in E.
+  intros fl fu ef eb. induction ops as [|o t IH]; intros st i d E; cbn [run_history] in E.
   - destruct i; discriminate.
   - destruct i as [|i]; cbn [nth_error] in E; [|exact (IH _ i d E)].
-    inversion E as [E1]. destruct o as [ls|rs| |]; cbn [step] in E1.
+    inversion E as [E1]. destruct o as [s ls|s rs| |]; cbn [step] in E1.
     + destruct (conn_read_st F _ ls) as [[c seen] r]. cbn [snd] in E1. destruct r; discriminate.
     + destruct (parse_records_st F rs) as [es ok]. cbn [snd] in E1. destruct ok; discriminate.
     + discriminate.
     + cbn [snd] in E1. destruct (compile_dict F st) as [d0| |] eqn:Ec; try discriminate. inversion E1; subst d0.
       exact (compile_dict_index_ok st d Ec).
+Qed.
+
+(* when neither arm of read_conn returns on its own, the kind of data source of a call does not matter: every history gives
+   what the same calls give with all their data handed over as bytes in memory *)
+Theorem history_source_irrelevant : forall fl fu ops st,
+  run_history F fl fu false false st ops = run_history F fl fu false false st (map as_bytes ops).
+Proof.
+  intros fl fu. induction ops as [|o t IH]; intros st; cbn [run_history map]; [reflexivity|].
+  assert (step F fl fu false false st o = step F fl fu false false st (as_bytes o)) as E.
+  { destruct o as [s ls|s rs| |]; cbn [as_bytes step]; try reflexivity. destruct s; reflexivity. }
+  rewrite E, IH. reflexivity.
 Qed.
 
 End History.
